@@ -389,6 +389,15 @@ impl BlobReader {
     /// Returns an error if a chunk is missing.
     #[allow(clippy::unused_async)]
     pub async fn next_chunk(&mut self) -> Result<Option<Vec<u8>>> {
+        // What an earlier `read` loaded but has not handed out yet comes first; otherwise a
+        // later `read` would return that stale tail behind the chunks handed out here.
+        if let Some(data) = self.current_data.take() {
+            let offset = std::mem::take(&mut self.current_offset).min(data.len());
+            if offset < data.len() {
+                return Ok(Some(data[offset..].to_vec()));
+            }
+        }
+
         if self.current_chunk >= self.chunks.len() {
             return Ok(None);
         }
@@ -415,12 +424,6 @@ impl BlobReader {
     /// Returns an error if a chunk is missing.
     pub async fn read_all(&mut self) -> Result<Vec<u8>> {
         let mut result = Vec::with_capacity(self.total_size);
-
-        // What an earlier `read` loaded but has not handed out yet is remaining data too
-        if let Some(data) = self.current_data.take() {
-            result.extend_from_slice(&data[self.current_offset.min(data.len())..]);
-            self.current_offset = 0;
-        }
 
         while let Some(chunk) = self.next_chunk().await? {
             result.extend(chunk);
